@@ -146,6 +146,7 @@ iface (t TrafficObject) Inherit(superSpec *Spec, previousGeneration Object, muxM
 ghost var gLifeSpec int   // the spec handed to the object's method
 ghost var gLifePrev int   // Inherit: the instance handed over as previous generation
 func (e *ObjectEntity) InitWithRecovery(muxMapper context.MuxMapper)
+  flag recovers
   flag allocates
   requires e != nil
   assume every-entity-is-built-with-an-instance: e.instance != nil
@@ -157,6 +158,7 @@ func (e *ObjectEntity) InitWithRecovery(muxMapper context.MuxMapper)
   ghost at call Init: gLifeSpec := ref(superSpec)
 
 func (e *ObjectEntity) InheritWithRecovery(previousEntity *ObjectEntity, muxMapper context.MuxMapper)
+  flag recovers
   flag allocates
   requires e != nil && previousEntity != nil
   assume every-entity-is-built-with-an-instance: e.instance != nil
@@ -175,6 +177,7 @@ func (e *ObjectEntity) InheritWithRecovery(previousEntity *ObjectEntity, muxMapp
 iface (o Object) Close()
   flag allocates
 func (e *ObjectEntity) CloseWithRecovery()
+  flag recovers
   flag allocates
   requires e != nil
   assume every-entity-is-built-with-an-instance: e.instance != nil
